@@ -39,16 +39,17 @@ def _record(args):
 FAMILIES = {
     # name: (consumers, topics, extra scenario fields)
     "n": ([("q1", None, "NORMAL")], ["ta"], {}),
-    "n+x": ([("q1", None, "NORMAL"), ("q1", None, "DEAD")], ["ta"], {}),
+    "n+x": ([("q1", None, "NORMAL"), ("q1", None, "DEAD")], ["ta"], {"prios": [5, 5, 1, 9]}),
     "n+d": ([("q1", None, "NORMAL"), ("q1", None, "DELAYED")], ["ta"], {}),
     "n+n": ([("q1", None, "NORMAL"), ("q1", None, "NORMAL")], ["ta"], {}),
-    "topics": ([("q1", ["ta"], "NORMAL"), ("q1", ["tb"], "NORMAL")], ["ta", "tb"], {}),
+    # (topic names where one is a prefix of the other: the Redis broker finds a topic's messages by name prefix)
+    "topics": ([("q1", ["ta"], "NORMAL"), ("q1", ["tab"], "NORMAL")], ["ta", "tab"], {}),
     "2q": ([("q1", None, "NORMAL"), ("q2", None, "NORMAL"), ("q2", None, "DEAD")], ["ta"], {}),
     # queue_flush / queue_declare / queue_delete between the other calls: two queues, one of them flushed
     # (queue names where one is a prefix of the other: the Redis broker finds a queue's keys by pattern)
     "flush": ([("q1", None, "NORMAL"), ("q10", None, "NORMAL"), ("q10", None, "DEAD")], ["ta"],
               {"weights": {"flush": 1, "declare": 1, "delete": 1, "enq": 6}, "max_ids": 12, "nops": 36}),
-    "fifo1": ([("q1", ["ta", "tb"], "NORMAL")], ["ta", "tb", "tc"], {"fifo_only": True, "max_ids": 14, "nops": 45,
+    "fifo1": ([("q1", ["ta", "tb"], "NORMAL")], ["ta", "tb", "tac"], {"fifo_only": True, "max_ids": 14, "nops": 45,
               "weights": {"enq": 6, "consume": 5, "finish": 0, "sleep": 1}}),
     "fifoprio": ([("q1", None, "NORMAL")], ["ta"], {"fifo_only": True, "max_ids": 12, "nops": 40, "prios": [1, 5, 9],
                  "weights": {"enq": 6, "consume": 5, "finish": 0, "sleep": 1}}),
